@@ -76,7 +76,8 @@ pub fn replay(ctx: &RunCtx, case: &Value) -> Result<Option<Fail>, String> {
     match ctx.prop {
         "C01" | "C02" => {
             let f1 = case.get("extra").and_then(|e| e.get("f1_undisputed")).and_then(|b| b.as_bool()).unwrap_or(false);
-            replay_pat(ctx, &diffref::DiffRef { f1_undisputed: f1, ..c01::prop(ctx.prop == "C02") }, case)
+            let rs = case.get("extra").and_then(|e| e.get("ref_style")).and_then(|b| b.as_u64()).unwrap_or(0) as u8;
+            replay_pat(ctx, &diffref::DiffRef { f1_undisputed: f1, ref_style: rs, ..c01::prop(ctx.prop == "C02") }, case)
         }
         "C15" => {
             let flag = |k: &str| case.get("extra").and_then(|e| e.get(k)).and_then(|b| b.as_bool()).unwrap_or(false);
